@@ -188,6 +188,41 @@ example : firstEvent (fun b => b) ([.log la, .log lc, .log lb, .log lc] : List (
     Interleaving [[Item.log la], [.log lc, .log lb, .log lc, .log la].take 3] ([.log la, .log lc, .log lb, .log lc] : List (Item Bytes Nat)) :=
   ⟨by decide, .next 0 rfl (.next 1 rfl (.next 1 rfl (.next 1 rfl (.done (by decide)))))⟩
 
+/-- **3'. endpoint failure with the node's reaction to it.** Endpoint `failed` fails at any point; its
+watchers report errors and the consumer answers each report with `DisconnectWs(Idx)`
+(`streamsAfterReports`: an endpoint named by a report stops forwarding at that moment).  If every
+report names the endpoint that actually failed — which `error_path_faithful` /
+`reported_index_is_the_failed_endpoint` establish for the table as it is — then any other endpoint `j`
+that delivers its complete stream still gets each log of the history to the handlers exactly once,
+including everything it emits after the failure. -/
+theorem endpoint_failure_tolerated_with_disconnect (hash : Bytes → H) (Hs : List (Log P))
+    (eps : List (Endpoint H P)) (failed j : Nat) (reports : List Nat) (ep : Endpoint H P)
+    (m : List (Item H P))
+    (hH : ∀ l ∈ Hs, l.removed = false ∧ 0 < l.blockN)
+    (hd : Hs.Pairwise (fun a b => ident hash false a ≠ ident hash false b))
+    (hitems : ∀ e ∈ eps, ∀ x ∈ e.before ++ e.after, StreamItem Hs x)
+    (hreports : ∀ r ∈ reports, r = failed)
+    (hj : eps[j]? = some ep) (hjf : j ≠ failed) (hjc : ∀ l ∈ Hs, Item.log l ∈ ep.before ++ ep.after)
+    (hm : Interleaving (streamsAfterReports failed reports 0 eps) m) :
+    (firstEvent hash m).Perm (Hs.map (·.payload)) := by
+  apply interleaving_once hash Hs _ m hH hd ?_ ?_ hm
+  · intro s hs x hx
+    obtain ⟨e, he, hp⟩ := streamsAfterReports_prefix failed reports eps 0 s hs
+    exact hitems e he x (hp.subset hx)
+  · intro l hl
+    have hnr : 0 + j ∉ reports := by
+      intro h; exact hjf (by simpa using hreports _ h)
+    have := streamsAfterReports_get failed reports eps 0 j ep hj (by omega) hnr
+    exact ⟨_, List.mem_of_getElem? this, hjc l hl⟩
+
+/-- … and a report that names a healthy endpoint does stop its delivery: two endpoints, endpoint 1 fails,
+one of its reports says 0, the log endpoint 0 emits afterwards never reaches the handlers. -/
+example :
+    let eps : List (Endpoint Bytes Nat) := [{ before := [.log la], after := [.log lc] }, { before := [.log la], after := [] }]
+    streamsAfterReports 1 [1, 0] 0 eps = [[.log la], [.log la]] ∧
+    streamsAfterReports 1 [1, 1] 0 eps = [[.log la, .log lc], [.log la]] := by
+  simp [streamsAfterReports]
+
 /-- observation (outside the property: no mined log has block number 0): the membership test is
 `visited[id] == 0` with the block number as the stored value, so a log with block number 0 is
 never remembered and is delivered again. -/
@@ -324,5 +359,35 @@ theorem table_complete :
     (entries.map (·.index)).Nodup ∧
     entries.all (fun e => (subscribedRows ++ otherRows).any (fun r => r.index == e.index && r.const == e.key)) = true := by
   decide
+
+/-- **4'. the error path of every table entry** (all 15, regenerated): both places that report a failure — the
+`Watch…` call failing and the `<-sub.Err()` case — hand an `OnchainError` to `replyError(ctx, errc, …)` whose
+`Idx` is `getWsIndex(ctx)`; `getWsIndex` reads the key `Connect` puts on the websocket contexts with the value
+`len(e.wsCtxes)`, i.e. the position at which that context and its cancel function are appended;
+`SubscribeEvent` runs the entries on `e.wsCtxes[i]`; and `DisconnectWs(idx)` cancels `e.wsCancels[idx]`. -/
+theorem error_path_faithful :
+    entries.all (fun e => e.errs ==
+      [("watch", "replyError(ctx, errc, _)", "getWsIndex(ctx)"), ("subErr", "replyError(ctx, errc, _)", "getWsIndex(ctx)")]) = true ∧
+    getWsIndexKey = "wsIndex" ∧ getIndexKey = "index" ∧
+    connectWithValues = [("index", "len(e.ctxes)"), ("wsIndex", "len(e.wsCtxes)")] ∧
+    connectAppends = [("e.ctxes", "ctx"), ("e.cancels", "cancel"), ("e.wsCtxes", "ctx"), ("e.wsCancels", "cancel")] ∧
+    subscribeTableCalls = ["crTable(e.wsCtxes[i], e.wsCrs[i])", "proxyTable(e.wsCtxes[i], e.wsProxies[i])"] ∧
+    disconnectWsBody = "{ if e.wsCancels[idx] != nil { e.wsCancels[idx]() } return }" := by
+  decide
+
+/-- consequently every error report of every entry, on websocket endpoint `k`, carries `Idx = k`:
+the hypothesis `hreports` of `endpoint_failure_tolerated_with_disconnect`. -/
+theorem reported_index_is_the_failed_endpoint (k : Nat) :
+    ∀ e ∈ entries, ∀ t ∈ e.errs, reportIdx t.2.2 k = some k := by
+  have h : entries.all (fun e => e.errs.all (fun t => t.2.2 == "getWsIndex(ctx)")) = true := by decide
+  intro e he t ht
+  rw [List.all_eq_true] at h
+  have := h e he
+  rw [List.all_eq_true] at this
+  have := this t ht
+  simp only [beq_iff_eq] at this
+  simp [reportIdx, this]
+
+example : reportIdx "getWsIndex(ctx)" 2 = some 2 ∧ reportIdx "getIndex(ctx)" 2 = some 0 := by decide
 
 end Dos.Props.C18
